@@ -98,7 +98,11 @@ def judge_shift(s, off, mode, result, exc, stdout):
         return True, "", classes
     if exc is not None:
         return False, "editTimestamps(%r, %r) raised %s: %s" % (off, mode, type(exc).__name__, exc), classes
-    why = check_result_tier(s, result, [exp], lo, hi, scale)
+    alts = [exp]
+    if kind == "P":
+        # a point tier keeps points that share a time - also: that come to share one after rounding - in label order (D12d)
+        alts.append(sorted(exp, key=lambda e: (float(e[0]), e[1])))
+    why = check_result_tier(s, result, alts, lo, hi, scale)
     if why:
         return False, why, classes
     if mode == "silence" and stdout:
